@@ -18,20 +18,21 @@ Theorem C22_setonly : forall (I K V : Type) (keqb : K -> K -> bool) (key : I -> 
 Proof. exact memo_correct. Qed.
 Print Assumptions C22_setonly.
 
-(* Translator cache as coded (safe = false) and as repaired (safe = true): under every schedule a finished thread
-   holds a translator built for its OWN parameter value - or, as coded, has failed with KeyError. *)
+(* Translator cache as coded (get, compare fixed values, pop(key, None), translate, set): under EVERY schedule of any
+   number of threads a finished thread holds a translator built for its OWN parameter value; no schedule raises. *)
+Theorem C22_translator : forall warm xs sched t,
+  let s := trun true (tinit warm xs) sched in
+  t_pc (t_thr s t) = 3 -> t_res (t_thr s t) = TGot (xs t).
+Proof. exact translator_fixed. Qed.
+Print Assumptions C22_translator.
+
+(* The same for both variants of the invalidation step: with the former `del cache[key]` (safe = false) the only other
+   outcome was KeyError - never another thread's translator. *)
 Theorem C22_translator_own_data : forall safe warm xs sched t,
   let s := trun safe (tinit warm xs) sched in
   t_pc (t_thr s t) = 3 -> t_res (t_thr s t) = TGot (xs t) \/ (safe = false /\ t_res (t_thr s t) = TKeyError).
 Proof. exact translator_own_data. Qed.
 Print Assumptions C22_translator_own_data.
-
-(* With `pop(query_key, None)` instead of `del` no schedule produces an error. *)
-Theorem C22_translator_fixed : forall warm xs sched t,
-  let s := trun true (tinit warm xs) sched in
-  t_pc (t_thr s t) = 3 -> t_res (t_thr s t) = TGot (xs t).
-Proof. exact translator_fixed. Qed.
-Print Assumptions C22_translator_fixed.
 
 (* Cross-thread use of an object of another thread's live session: every operation outside the recorded unguarded
    cases is rejected (TransactionError). *)
@@ -44,5 +45,10 @@ Example C22_nonvacuous_memo :
   map (fun t => c_res (m_cl s t)) [0; 1; 2; 3] = [Some 0; Some 0; Some 10; Some 10].
 Proof. vm_compute. reflexivity. Qed.
 Example C22_nonvacuous_translator :
-  toutcome false (Some 0) [1; 2] [0; 0; 0; 1; 1; 1] = ([TGot 1; TGot 2], [(0, DGet); (0, DDel); (0, DSet); (1, DGet); (1, DDel); (1, DSet)], Some 2).
+  toutcome true (Some 0) [1; 2] [0; 0; 0; 1; 1; 1] = ([TGot 1; TGot 2], [(0, DGet); (0, DDel); (0, DSet); (1, DGet); (1, DDel); (1, DSet)], Some 2).
+Proof. vm_compute. reflexivity. Qed.
+(* the schedule of the repaired race: both threads find the stale entry, both invalidate it, both translate and set *)
+Example C22_nonvacuous_race :
+  toutcome true (Some 0) [1; 2] [0; 1; 0; 1; 0; 1]
+  = ([TGot 1; TGot 2], [(0, DGet); (1, DGet); (0, DDel); (1, DDel); (0, DSet); (1, DSet)], Some 2).
 Proof. vm_compute. reflexivity. Qed.
